@@ -240,6 +240,22 @@ Section Subst.
     apply N.eqb_eq in E. rewrite (Hc _ E). auto.
   Qed.
 
+  (* the read of the repaired tree: for a file written by hash_write_full, whatever the backend
+     holds afterwards (any modification, truncation, extension, substitution of any file), reading
+     its id yields an error or exactly the data that was written *)
+  Lemma substitution_detected_lemma zstd k n data s' x :
+    length n = nonce_len -> issued k n (file_payload zenc zstd data) ->
+    (zstd = None -> json_start data = true) ->
+    let c := encrypt_file zstd k n data in
+    (forall d, hash d = hash c -> d = c) ->
+    read_repo_file key dec zdec hash true false k s' (hash c) = Ok x -> x = data.
+  Proof.
+    intros Hn Hi Hj c Hc R. unfold read_repo_file in R. cbn [andb negb] in R.
+    apply (id_check_detects_substitution_lemma k s' c x Hc) in R.
+    destruct (file_roundtrip_lemma enc dec issued zenc zdec IA ZOK zstd k n data Hn Hi Hj) as [RT _].
+    fold c in RT. rewrite RT in R. injection R as <-. reflexivity.
+  Qed.
+
   Lemma id_check_rejects_swap_lemma k c1 c2 :
     hash c1 <> hash c2 ->
     let s' := swap_files [(hash c2, c2); (hash c1, c1)] (hash c1) (hash c2) in
